@@ -594,18 +594,23 @@ fn convert_acronyms_to_uppercase(uppercase_acronyms: Vec<String>, name: &str) ->
     let mut res = name.to_string();
     for a in &uppercase_acronyms {
         for (i, a) in name.match_indices(&a.to_string().to_pascal_case()) {
-            let acronym_len = a.chars().count();
+            // `i` is a byte offset into `name`: stay in byte offsets throughout.
+            let end = i + a.len();
+            let upper = a.to_uppercase();
 
             // Only perform the replacement if the matched string is not followed by a lowercase
             // or its the end of the string.
             // This prevents replacing Identity with IDentity.
-            if name
+            if name[end..]
                 .chars()
-                .nth(i + acronym_len)
+                .next()
                 .map(|c| !c.is_lowercase())
                 .unwrap_or(true)
+                // `res` is edited in place at offsets of `name`: only same-length
+                // replacements keep the two in step.
+                && upper.len() == a.len()
             {
-                res.replace_range(i..i + acronym_len, &a.to_uppercase());
+                res.replace_range(i..end, &upper);
             }
         }
     }
